@@ -47,7 +47,9 @@ LeafKinds == {"from", "alias", "as-alias", "schema", "two-tables", "join-inner",
               "where-fn", "group-having-order", "insert-values", "update", "delete", "merge", "case", "between-in-cast", "window",
               "string-keyword", "count-star", "shared"}
 NestKinds == {"in-subquery", "exists", "scalar-subquery", "derived", "join-derived", "cte", "insert-select", "update-subquery",
-              "delete-subquery", "union", "not-in-subquery"}
+              "delete-subquery", "union", "not-in-subquery", "values-subquery", "returning-subquery", "upsert-subquery",
+              "update-set-subquery", "having-subquery", "join-on-subquery", "case-subquery", "function-arg-subquery",
+              "order-by-subquery", "between-subquery"}
 
 \* ---- leaf frames --------------------------------------------------------------------------------------------
 Leaf(k, L) ==
@@ -143,13 +145,44 @@ Nest(k, L, n) ==
     [] k = "delete-subquery" ->
          With([toks |-> <<"DELETE", "FROM", ta, "WHERE", ca, "IN", "(">> \o n.toks \o <<")">>,
                T |-> {ta}, TQ |-> {Plain(ta)}, C |-> {ca}, CQ |-> {Plain(ca)}, F |-> {}, A |-> {}], n)
+    [] k = "values-subquery" ->
+         With([toks |-> <<"INSERT", "INTO", ta, "(", ca, ")", "VALUES", "(", "(">> \o n.toks \o <<")", ")">>,
+               T |-> {ta}, TQ |-> {Plain(ta)}, C |-> {ca}, CQ |-> {Plain(ca)}, F |-> {}, A |-> {}], n)
+    [] k = "returning-subquery" ->
+         With([toks |-> <<"INSERT", "INTO", ta, "(", ca, ")", "VALUES", "(", "1", ")", "RETURNING", "(">> \o n.toks \o <<")">>,
+               T |-> {ta}, TQ |-> {Plain(ta)}, C |-> {ca}, CQ |-> {Plain(ca)}, F |-> {}, A |-> {}], n)
+    [] k = "upsert-subquery" ->
+         With([toks |-> <<"INSERT", "INTO", ta, "(", ca, ")", "VALUES", "(", "1", ")", "ON", "CONFLICT", "(", ca, ")", "DO", "UPDATE", "SET", cb, "=", "(">> \o n.toks \o <<")">>,
+               T |-> {ta}, TQ |-> {Plain(ta)}, C |-> {ca, cb}, CQ |-> {Plain(ca), Plain(cb)}, F |-> {}, A |-> {}], n)
+    [] k = "update-set-subquery" ->
+         With([toks |-> <<"UPDATE", ta, "SET", ca, "=", "(">> \o n.toks \o <<")", "WHERE", cb, "=", "1">>,
+               T |-> {ta}, TQ |-> {Plain(ta)}, C |-> {ca, cb}, CQ |-> {Plain(ca), Plain(cb)}, F |-> {}, A |-> {}], n)
+    [] k = "having-subquery" ->
+         With([toks |-> <<"SELECT", ca, "FROM", ta, "GROUP", "BY", ca, "HAVING", cb, ">", "(">> \o n.toks \o <<")">>,
+               T |-> {ta}, TQ |-> {Plain(ta)}, C |-> {ca, cb}, CQ |-> {Plain(ca), Plain(cb)}, F |-> {}, A |-> {}], n)
+    [] k = "join-on-subquery" ->
+         With([toks |-> <<"SELECT", ca, "FROM", ta, "JOIN", Tab(L, "b"), "ON", cb, "IN", "(">> \o n.toks \o <<")">>,
+               T |-> {ta, Tab(L, "b")}, TQ |-> {Plain(ta), Plain(Tab(L, "b"))}, C |-> {ca, cb}, CQ |-> {Plain(ca), Plain(cb)}, F |-> {}, A |-> {}], n)
+    [] k = "case-subquery" ->
+         With([toks |-> <<"SELECT", "CASE", "WHEN", "EXISTS", "(">> \o n.toks \o <<")", "THEN", ca, "ELSE", "0", "END", "FROM", ta>>,
+               T |-> {ta}, TQ |-> {Plain(ta)}, C |-> {ca}, CQ |-> {Plain(ca)}, F |-> {}, A |-> {}], n)
+    [] k = "function-arg-subquery" ->
+         With([toks |-> <<"SELECT", Fn(L), "(", "(">> \o n.toks \o <<")", ",", ca, ")", "FROM", ta>>,
+               T |-> {ta}, TQ |-> {Plain(ta)}, C |-> {ca}, CQ |-> {Plain(ca)}, F |-> {Fn(L)}, A |-> {}], n)
+    [] k = "order-by-subquery" ->
+         With([toks |-> <<"SELECT", ca, "FROM", ta, "ORDER", "BY", "(">> \o n.toks \o <<")">>,
+               T |-> {ta}, TQ |-> {Plain(ta)}, C |-> {ca}, CQ |-> {Plain(ca)}, F |-> {}, A |-> {}], n)
+    [] k = "between-subquery" ->
+         With([toks |-> <<"SELECT", ca, "FROM", ta, "WHERE", cb, "BETWEEN", "(">> \o n.toks \o <<")", "AND", "9">>,
+               T |-> {ta}, TQ |-> {Plain(ta)}, C |-> {ca, cb}, CQ |-> {Plain(ca), Plain(cb)}, F |-> {}, A |-> {}], n)
     [] k = "union" ->
          With([toks |-> <<"SELECT", ca, "FROM", ta, "UNION", "ALL">> \o n.toks,
                T |-> {ta}, TQ |-> {Plain(ta)}, C |-> {ca}, CQ |-> {Plain(ca)}, F |-> {}, A |-> {}], n)
 
 \* statements that may stand in a hole are queries
 QueryLeaf == LeafKinds \ {"insert-values", "update", "delete", "merge"}
-QueryNest == {"in-subquery", "not-in-subquery", "exists", "scalar-subquery", "derived", "join-derived", "union"}
+QueryNest == {"in-subquery", "not-in-subquery", "exists", "scalar-subquery", "derived", "join-derived", "union", "having-subquery",
+              "join-on-subquery", "case-subquery", "function-arg-subquery", "order-by-subquery", "between-subquery"}
 
 \* a composition is a path of kinds, outermost first; all but the last are nest kinds
 Paths == UNION {{p \in [1..d -> LeafKinds \cup NestKinds] :
@@ -171,7 +204,8 @@ Toks == {Stmt.toks[i] : i \in DOMAIN Stmt.toks}
 \* the string-literal tokens the frames use
 Lits == UNION {{"'" \o Tab(L, "b") \o "'", "'" \o Tab(L, "b") \o " select " \o Col(L, "c") \o " from'"} : L \in 1..Depth}
 Keywords == {"SELECT", "FROM", "WHERE", "JOIN", "ON", "AS", "INSERT", "INTO", "VALUES", "UPDATE", "SET", "DELETE", "MERGE", "USING",
-             "GROUP", "BY", "HAVING", "ORDER", "WITH", "UNION", "ALL", "IN", "EXISTS", "NOT", "CASE", "WHEN", "THEN", "ELSE", "END", "CAST"}
+             "GROUP", "BY", "HAVING", "ORDER", "WITH", "UNION", "ALL", "IN", "EXISTS", "NOT", "CASE", "WHEN", "THEN", "ELSE", "END", "CAST",
+             "RETURNING", "CONFLICT", "DO", "BETWEEN", "AND"}
 \* every expected column and function name, and the last component of every table name, is a token of the statement
 Written == /\ Stmt.C \subseteq Toks /\ Stmt.F \subseteq Toks
            /\ \A q \in Stmt.TQ : q[2] \in Toks /\ (q[1] # "" => q[1] \in Toks)
